@@ -629,6 +629,19 @@ theorem step_ready (s : State) (op : Op) (h : Ready s) (hl : LinInv s) (ho : Ori
         split
         · exact dropCheckout_ready h r
         · exact h
+  | cancelOff r =>
+    simp only [step]
+    cases hh : s.held r with
+    | some p =>
+      simp only []
+      have hs : Sub { s with held := upd s.held r none } s := by
+        refine Sub.of_fields rfl (fun _ _ h => h) (fun _ chk _ h hc => ⟨chk, h, hc⟩) ?_ (fun _ _ _ _ h => h) (fun _ _ => Nat.le_refl _)
+        intro r' p' hp'
+        by_cases e : r' = r
+        · subst e; simp at hp'
+        · simpa [upd, e] using hp'
+      exact abortTask_ready (dropPooled_ready (h.sub_eq hs rfl) p) _
+    | none => exact h
   | dialDone r o =>
     simp only [step]
     split
